@@ -64,6 +64,14 @@ func init() {
 				p.Knobs.RejectDev = false
 			}
 			if g.chance(1, 4) {
+				// the acknowledgement of the handler's "create transaction" is late: the transaction is in the log, its
+				// events flow and the controllers work on it while the handler has not even subscribed yet
+				p.Profile = "answers+late-ack"
+				p.Knobs.LateAck = []string{"transactions/append"}
+				p.Sched.Policy = []string{"window", "starve"}[g.pick(2)]
+				p.Sched.Starve = []string{"ack/transactions/append", "ack/transactions/append,cli/"}[g.pick(2)]
+			}
+			if g.chance(1, 4) {
 				p.Knobs.CancelLate = 1 + g.pick(6)
 			}
 			if g.chance(1, 4) {
